@@ -90,50 +90,103 @@ type combo struct {
 }
 
 type cyclers struct {
-	combos  []combo
+	combos  []combo // [hold..., fail...] two cycles
+	holds   []combo
+	fails   []combo
+	hi, fi  int
 	ci      int
-	constr  map[string][]Scenario
+	constr  map[string][]Scenario // every scenario usable with a main program
+	own     map[string][]Scenario // the vcl_* scenarios of one main program (cycled)
+	generic []Scenario            // construct scenarios common to all programs (cycled)
+	geni    int
 	coni    map[string]int
 	fx      []fxPair
 	fxi     int
 	erri    int
+	tagi    int
 	r       *rand.Rand
 	uniq    int
 	testSeq int
 }
 
+var exprKinds = map[string]bool{"assert.equal": true, "assert.true": true, "assert.match": true, "assert.is_notset": true, "assert.not_contains": true, "assert.state": true}
+var argcKinds = map[string]bool{"assert": true, "assert.equal": true, "assert.match": true, "assert.contains": true, "assert.error": true, "assert.subroutine_called": true, "assert.restart": true, "assert.is_json": true}
+
 func newCyclers(r *rand.Rand) *cyclers {
-	c := &cyclers{r: r, constr: map[string][]Scenario{}, coni: map[string]int{}}
-	for _, k := range assertKinds {
-		for _, v := range []string{"", "+msg", "/type", "/argc", "/expr", "+emptymsg", "/bad-regex"} {
-			for _, h := range []bool{true, false} {
-				c.combos = append(c.combos, combo{k, v, h})
-				if v == "" { // plain instantiations get more weight
-					c.combos = append(c.combos, combo{k, v, h})
-				}
-			}
-		}
-	}
-	r.Shuffle(len(c.combos), func(i, j int) { c.combos[i], c.combos[j] = c.combos[j], c.combos[i] })
+	c := &cyclers{r: r, constr: map[string][]Scenario{}, own: map[string][]Scenario{}, coni: map[string]int{}}
 	all := constructScenarios()
 	for _, m := range []string{"A", "B", "C"} {
 		for _, s := range all {
 			if s.Main == "" || s.Main == m {
 				c.constr[m] = append(c.constr[m], s)
 			}
+			if s.Main == m {
+				c.own[m] = append(c.own[m], s)
+			}
 		}
-		l := c.constr[m]
+		l := c.own[m]
 		r.Shuffle(len(l), func(i, j int) { l[i], l[j] = l[j], l[i] })
 	}
+	for _, s := range all {
+		if s.Main == "" {
+			c.generic = append(c.generic, s)
+		}
+	}
+	r.Shuffle(len(c.generic), func(i, j int) { c.generic[i], c.generic[j] = c.generic[j], c.generic[i] })
 	c.fx = fxPairs()
 	r.Shuffle(len(c.fx), func(i, j int) { c.fx[i], c.fx[j] = c.fx[j], c.fx[i] })
+	// the cycle of instantiations: every (function, variant, hold/fail) that can be built over the catalogue
+	probe := rand.New(rand.NewSource(1))
+	cands := append(append([]Scenario{pureScenario(probe, 0), pureScenario(probe, 1), pureScenario(probe, 2)}, all...), scopedHeaderScenario(probe, "deliver"))
+	for _, k := range assertKinds {
+		for _, v := range []string{"", "+msg", "/type", "/argc", "/expr", "+emptymsg", "/bad-regex"} {
+			if (v == "/expr" && !exprKinds[k]) || (v == "/argc" && !argcKinds[k]) {
+				continue
+			}
+			for _, h := range []bool{true, false} {
+				possible := false
+				for i := 0; i < len(cands)*4 && !possible; i++ {
+					_, possible = inst(probe, k, h, v, &cands[i%len(cands)], 0)
+				}
+				if possible {
+					c.combos = append(c.combos, combo{k, v, h})
+					if h {
+						c.holds = append(c.holds, combo{k, v, h})
+					} else {
+						c.fails = append(c.fails, combo{k, v, h})
+					}
+				}
+			}
+		}
+	}
+	r.Shuffle(len(c.holds), func(i, j int) { c.holds[i], c.holds[j] = c.holds[j], c.holds[i] })
+	r.Shuffle(len(c.fails), func(i, j int) { c.fails[i], c.fails[j] = c.fails[j], c.fails[i] })
 	return c
 }
 
+// candidates: the scenarios an instantiation may be placed in, in the order they are tried.
+func (c *cyclers) candidates(m string) []Scenario {
+	r := c.r
+	pure := []Scenario{pureScenario(r, 0), pureScenario(r, 1), pureScenario(r, 2), scopedHeaderScenario(r, scopedHeaderScopes[r.Intn(len(scopedHeaderScopes))])}
+	r.Shuffle(len(pure), func(i, j int) { pure[i], pure[j] = pure[j], pure[i] })
+	con := append([]Scenario{}, c.constr[m]...)
+	r.Shuffle(len(con), func(i, j int) { con[i], con[j] = con[j], con[i] })
+	if r.Intn(2) == 0 {
+		return append(pure, con...)
+	}
+	return append(con, pure...)
+}
+
 func (c *cyclers) nextConstruct(m string) Scenario {
-	l := c.constr[m]
+	l := c.own[m]
 	s := l[c.coni[m]%len(l)]
 	c.coni[m]++
+	return s
+}
+
+func (c *cyclers) nextGeneric() Scenario {
+	s := c.generic[c.geni%len(c.generic)]
+	c.geni++
 	return s
 }
 
@@ -195,16 +248,29 @@ func (c *cyclers) addItems(t *TestSpec, sc *Scenario, n int, pHold float64) {
 }
 
 // comboTest: the next (kind, variant, hold) of the cycle, in a scenario it applies to.
-func (c *cyclers) comboTest(m string, allHold bool) TestSpec {
+// mode: "hold" next of the hold cycle, "any" next of the hold or of the fail cycle, "random" a
+// random combination that does not advance the cycles (for tests that are not executed anyway).
+func (c *cyclers) comboTest(m string, mode string) TestSpec {
 	r := c.r
 	for {
-		cb := c.combos[c.ci%len(c.combos)]
-		c.ci++
-		if allHold && !cb.hold {
-			continue
+		var cb combo
+		switch {
+		case mode == "random":
+			cb = c.combos[r.Intn(len(c.combos))]
+		case mode == "random-hold":
+			// a plain instantiation that holds, of a function without a known defect on this tree
+			cb = combo{[]string{"assert.true", "assert.equal", "assert.contains", "assert.not_equal", "assert.is_notset", "assert.not_error"}[r.Intn(6)], "", true}
+		case mode == "hold" || r.Intn(2) == 0:
+			cb = c.holds[c.hi%len(c.holds)]
+			c.hi++
+			c.ci++
+		default:
+			cb = c.fails[c.fi%len(c.fails)]
+			c.fi++
+			c.ci++
 		}
-		for try := 0; try < 16; try++ {
-			sc := c.randomScenario(m)
+		allHold := mode == "hold" || mode == "random-hold"
+		for _, sc := range c.candidates(m) {
 			if sc.NoAssert {
 				continue
 			}
@@ -220,7 +286,9 @@ func (c *cyclers) comboTest(m string, allHold bool) TestSpec {
 			if allHold {
 				ph = 1
 			}
-			c.addItems(&t, &sc, r.Intn(3), ph)
+			if mode != "random-hold" {
+				c.addItems(&t, &sc, r.Intn(3), ph)
+			}
 			t.Items = append(t.Items, sc.Fixed...)
 			return t
 		}
@@ -282,7 +350,7 @@ func genFile(c *cyclers, id int, k int) FileSpec {
 	switch f.Class {
 	case "all-skip":
 		for i, n := 0, 2+r.Intn(4); i < n; i++ {
-			t := c.comboTest(m, false)
+			t := c.comboTest(m, "random")
 			t.Skip = true
 			if r.Intn(3) == 0 {
 				t.Scopes = []string{"recv", "deliver"}
@@ -294,10 +362,10 @@ func genFile(c *cyclers, id int, k int) FileSpec {
 			ts = append(ts, c.errorTest(m, true))
 		}
 		for i, n := 0, 1+r.Intn(3); i < n; i++ {
-			ts = append(ts, c.comboTest(m, true))
+			ts = append(ts, c.comboTest(m, "hold"))
 		}
 		if r.Intn(2) == 0 {
-			t := c.comboTest(m, false)
+			t := c.comboTest(m, "random")
 			t.Skip = true
 			ts = append(ts, t)
 		}
@@ -307,12 +375,17 @@ func genFile(c *cyclers, id int, k int) FileSpec {
 		if allHold {
 			ph = 1
 		}
-		for i := 0; i < 3; i++ {
-			ts = append(ts, c.comboTest(m, allHold))
+		for i := 0; i < 6; i++ {
+			if allHold {
+				ts = append(ts, c.comboTest(m, "hold"))
+			} else {
+				ts = append(ts, c.comboTest(m, "any"))
+			}
 		}
 		for i := 0; i < 2; i++ {
-			ts = append(ts, c.scenarioTest(c.nextConstruct(m), ph))
+			ts = append(ts, c.scenarioTest(c.nextGeneric(), ph))
 		}
+		ts = append(ts, c.scenarioTest(c.nextConstruct(m), ph))
 		// one side-effect test and its probe
 		p := c.fx[c.fxi%len(c.fx)]
 		c.fxi++
@@ -321,14 +394,15 @@ func genFile(c *cyclers, id int, k int) FileSpec {
 		ts = append(ts, fxT, prT)
 		if !allHold {
 			ts = append(ts, c.errorTest(m, false))
-			if r.Intn(10) < 4 {
-				t := c.comboTest(m, true)
-				t.Tag = []string{"prod", "!prod", "prod, dev"}[r.Intn(3)]
+			if r.Intn(2) == 0 {
+				t := c.comboTest(m, "random-hold")
+				t.Tag = []string{"prod", "!prod", "prod, dev", "!dev"}[c.tagi%4]
+				c.tagi++
 				ts = append(ts, t)
 			}
 		}
 		if r.Intn(2) == 0 {
-			t := c.comboTest(m, false)
+			t := c.comboTest(m, "random")
 			t.Skip = true
 			ts = append(ts, t)
 		}
@@ -395,6 +469,10 @@ func gen(g *fw.GenCtx) {
 	}
 	if len(b.Files) > 0 {
 		g.Emit("files", b)
+	}
+	if os.Getenv("FW_DEBUG") != "" {
+		fmt.Fprintf(os.Stderr, "C10 gen: %d instantiation combos in the cycle, %d drawn (%.1f cycles of the failing ones); %d side-effect pairs, %d drawn; tests generated %d\n", len(c.combos), c.ci, float64(c.fi)/float64(len(c.fails)), len(c.fx), c.fxi, c.testSeq)
+		fmt.Fprintf(os.Stderr, "C10 gen: %d generic construct scenarios, %d drawn; per-program scenarios A/B/C %d/%d/%d, drawn %d/%d/%d\n", len(c.generic), c.geni, len(c.own["A"]), len(c.own["B"]), len(c.own["C"]), c.coni["A"], c.coni["B"], c.coni["C"])
 	}
 }
 
@@ -656,6 +734,9 @@ func classify(e jCase) string {
 	switch {
 	case e.Skip:
 		return "skip"
+	case e.Error == "" && e.Line > 0:
+		// a failed assertion whose message is the empty string: `error` is omitted from the entry
+		return "fail(empty-message)"
 	case e.Error == "":
 		return "pass"
 	case e.Line == 0:
@@ -693,7 +774,7 @@ func (o obs) equal(p obs) bool {
 func (o obs) diffField(p obs) string {
 	switch {
 	case o.Verdict != p.Verdict:
-		return o.Verdict + "->" + p.Verdict
+		return "verdict"
 	case o.Msg != p.Msg || o.RelLine != p.RelLine || o.Pos != p.Pos:
 		return "message"
 	}
@@ -841,7 +922,7 @@ func (c *checker) exec(order []int, cov bool, what string, cliTag string) *arrRu
 
 // checkCounts: exit status and conservation for a -json run.
 func (c *checker) checkCounts(a *arrRun, cliTag string) {
-	var p, f, s, assertFails int
+	var p, f, s int
 	onlyErrors := true
 	for _, e := range a.rr.entries {
 		switch v := classify(e); {
@@ -853,9 +934,6 @@ func (c *checker) checkCounts(a *arrRun, cliTag string) {
 			f++
 			if v == "fail(assertion)" || v == "fail(custom-message)" {
 				onlyErrors = false
-			}
-			if v != "fail(runtime-error)" {
-				assertFails++
 			}
 		}
 	}
@@ -884,10 +962,27 @@ func (c *checker) checkCounts(a *arrRun, cliTag string) {
 	nums := fmt.Sprintf("result entries: %d (passed %d, failed %d, skipped %d); summary: passes %d, fails %d, skips %d, asserts %d", n, p, f, s, sm.Passes, sm.Fails, sm.Skips, sm.Asserts)
 	if sm.Fails != f {
 		w := "summary.fails != number of failed result entries; " + nums
-		if sm.Fails == f+assertFails {
-			w += fmt.Sprintf(" — fails = failed entries (%d) + entries failed by an assertion function (%d): counted once in the assert function and once more in tester.run", f, assertFails)
+		// entries whose failing item is a call of an assertion function (known by construction)
+		byAssert, known := 0, true
+		for i, x := range a.rd.Entries {
+			if coarse(classify(a.rr.entries[i])) != "fail" {
+				continue
+			}
+			if x.Test < 0 || c.f.Tests[x.Test].ObsOnly {
+				known = false
+				continue
+			}
+			v := constructed(&c.f.Tests[x.Test], cliTag)
+			if v.V != "fail" {
+				byAssert++ // a hold item reported failed: necessarily through an assertion function
+			} else if c.f.Tests[x.Test].Items[v.Item].Asserts > 0 {
+				byAssert++
+			}
+		}
+		if known && sm.Fails == f+byAssert {
+			w += fmt.Sprintf(" — fails = failed entries (%d) + entries failed inside an assertion function (%d): such a failure is counted once in the assert wrapper and once more in tester.run", f, byAssert)
 			c.oc.Tag("count:json/fails explained by double counting")
-		} else {
+		} else if known {
 			c.oc.Tag("count:json/fails NOT explained by double counting")
 		}
 		c.oc.Violate("count:json/fails", w, c.detail(&a.rd, &a.rr, nil))
@@ -1058,27 +1153,29 @@ func itemAt(rd *rendered, ti int, rel int) int {
 }
 
 // checkVerdicts compares every entry of the run with its constructed verdict. alone gives, for
-// tests whose verdict deviates, the verdict observed when the test ran alone (nil while running
-// the singletons themselves): a deviation that disappears when the test is alone is an order
-// finding, not a verdict finding.
-func (c *checker) checkVerdicts(a *arrRun, cliTag string, alone map[int][]obs) {
+// tests whose verdict deviates, what was observed when the test ran alone (nil while running the
+// singletons themselves): a deviation that disappears when the test is alone is an order finding,
+// not a verdict finding. base (only for the -t run) gives the observations of the same file
+// without -t: untagged tests are then only required to be unaffected by the option.
+func (c *checker) checkVerdicts(a *arrRun, cliTag string, alone map[int][]obs, base *arrRun) {
 	if !a.ok {
 		return
 	}
+	firstScopeOK := map[int]bool{}
 	for i, x := range a.rd.Entries {
 		e := a.rr.entries[i]
 		got := classify(e)
-		var want verdict
-		kind := "helper-sub:" + x.Helper
-		var t *TestSpec
-		if x.Test >= 0 {
-			t = &c.f.Tests[x.Test]
-			want = constructed(t, cliTag)
-			kind = t.Kind
-		} else {
-			want = helperVerdict()
+		if x.Test < 0 {
+			if got != "pass" {
+				c.oc.Violate("verdict:helper-sub:"+x.Helper+"/pass->"+got, fmt.Sprintf("the subroutine %s, declared in the test file only to be used with testing.mock, is run as a test and reported %s (%s): a file that mocks it can never pass", x.Helper, got, clip(e.Error, 160)),
+					c.detail(&a.rd, &a.rr, map[string]any{"entry": e}))
+			} else {
+				c.oc.Tag("inst:helper-sub:" + x.Helper + "/hold")
+			}
+			continue
 		}
-		if t != nil && t.ObsOnly {
+		t := &c.f.Tests[x.Test]
+		if t.ObsOnly {
 			if x.Nth > 0 {
 				if got == "pass" {
 					c.oc.Tag("obs:multi-scope/second scope starts from fresh state")
@@ -1088,94 +1185,157 @@ func (c *checker) checkVerdicts(a *arrRun, cliTag string, alone map[int][]obs) {
 			}
 			continue
 		}
+		if cliTag != "" && t.Tag == "" {
+			if base != nil {
+				if bo, ok := base.obs[ekey(x.Name, x.Scope)]; ok && bo.Verdict != got {
+					c.oc.Violate("verdict:untagged test with -t/"+bo.Verdict+"->"+got, fmt.Sprintf("untagged test %q is reported %s without -t and %s with -t %s", x.Name, bo.Verdict, got, cliTag), c.detail(&a.rd, &a.rr, map[string]any{"entry": e}))
+				}
+			}
+			continue
+		}
+		want := constructed(t, cliTag)
 		ws := want.String()
-		okv := got == ws || (want.V == "fail" && want.Class == "any" && coarse(got) == "fail")
-		msgOK := true
-		if okv && want.V == "fail" && want.Msg != "" {
-			if want.Class == "custom-message" {
-				msgOK = e.Error == want.Msg
+		det := func(extra map[string]any) map[string]any {
+			d := c.detail(&a.rd, &a.rr, map[string]any{"entry": e, "constructed": ws, "reported": got, "run": a.what, "coverage": a.cov, "scenario": t.Scenario})
+			for k, v := range extra {
+				d[k] = v
+			}
+			return d
+		}
+		report := func(kind, exp, rep, what string, extra map[string]any) {
+			// a deviation that is not there when the test is alone in its file is an order finding: it is
+			// reported (with the name of the leaking state) by the comparison with the singleton run
+			if alone != nil {
+				if so, ok := alone[x.Test]; ok && x.Nth < len(so) {
+					if cur, ok := a.obs[ekey(x.Name, x.Scope)]; ok && !so[x.Nth].equal(cur) {
+						c.oc.Tag("verdict-deviation-left-to-order-monitor")
+						return
+					}
+				}
+			}
+			if x.Nth > 0 && firstScopeOK[x.Test] {
+				kind += "@later-scope"
+			}
+			c.oc.Violate("verdict:"+kind+"/"+exp+"->"+rep, what, det(extra))
+		}
+		// annotations decide first
+		annot := ""
+		switch {
+		case t.Tag != "":
+			annot = "@tag:" + strings.ReplaceAll(t.Tag, " ", "")
+			if cliTag != "" {
+				annot += " with -t " + cliTag
 			} else {
-				msgOK = strings.Contains(e.Error, want.Msg)
+				annot += " without -t"
 			}
+		case t.Skip:
+			annot = "@skip"
 		}
-		// which item is blamed
-		item := -1
-		if t != nil {
-			if want.V == "fail" {
-				item = want.Item
-			}
-			if coarse(got) == "fail" && e.Line > 0 {
-				if j := itemAt(&a.rd, x.Test, e.Line-a.rd.Start[x.Name]); j >= 0 && (item < 0 || j < item) {
-					item = j
+		if want.V == "skip" || got == "skip" {
+			if ws != got {
+				k := annot
+				if k == "" {
+					k = t.Kind
 				}
-			}
-			if item >= 0 && item < len(t.Items) {
-				kind = t.Items[item].Kind
-			}
-			if cliTag != "" || t.Tag != "" {
-				if t.Tag != "" {
-					kind = "@tag:" + strings.ReplaceAll(t.Tag, " ", "")
-					if cliTag != "" {
-						kind += " with -t " + cliTag
-					} else {
-						kind += " without -t"
-					}
-				} else if cliTag != "" && !okv {
-					kind = "untagged test with -t " + cliTag
-				}
-			}
-			if t.Skip && !okv {
-				kind = "@skip"
-			}
-			if t.ByName && !okv {
-				kind = "scope-by-name:" + t.Scopes[0]
-			}
-		}
-		if okv && msgOK {
-			if t != nil && cliTag == "" {
-				for j, it := range t.Items {
-					if want.V == "skip" {
-						break
-					}
-					hf := "hold"
-					if it.Fail {
-						hf = "fail"
-					}
-					c.oc.Tag("inst:" + it.Kind + "/" + hf)
-					if want.V == "fail" && j == want.Item {
-						break
-					}
-				}
+				report(k, ws, coarse(got), fmt.Sprintf("test %q (%s): constructed verdict %s, reported %s (%s)", x.Name, x.Scope, ws, got, clip(e.Error, 160)), nil)
+			} else if annot != "" {
+				c.oc.Tag("inst:" + annot + "/skip")
 			}
 			continue
 		}
-		det := c.detail(&a.rd, &a.rr, map[string]any{"entry": e, "constructed": ws, "reported": got, "run": a.what, "coverage": a.cov})
-		if t != nil {
-			det["scenario"] = t.Scenario
-			if item >= 0 && item < len(t.Items) {
-				det["item"] = t.Items[item]
+		if annot != "" && ws == got {
+			c.oc.Tag("inst:" + annot + "/run")
+		}
+		// the item the report blames (by line) and the item constructed to fail
+		cj := -1
+		if want.V == "fail" {
+			cj = want.Item
+		}
+		rj := -1
+		if coarse(got) == "fail" && e.Line > 0 {
+			rj = itemAt(&a.rd, x.Test, e.Line-a.rd.Start[x.Name])
+		} else if coarse(got) == "fail" {
+			// runtime exceptions carry their position in the message only
+			if m := posRe.FindStringSubmatch(e.Error); m != nil && strings.HasSuffix(m[1], "main.test.vcl") {
+				n, _ := strconv.Atoi(m[2])
+				rj = itemAt(&a.rd, x.Test, n-a.rd.Start[x.Name])
 			}
 		}
-		if !okv {
-			// does the deviation go away when the test is alone in the file?
-			if alone != nil && t != nil {
-				if so, ok := alone[x.Test]; ok && x.Nth < len(so) && (so[x.Nth].Verdict == ws || (want.Class == "any" && coarse(so[x.Nth].Verdict) == "fail")) {
-					who := t.ProbeFor
-					if who == "" {
-						who = kind
-					}
-					c.oc.Violate("order:"+who+"/"+ws+"->"+got, fmt.Sprintf("test %q (%s) has its constructed verdict %s when it is alone in the file but is reported %s in the file with the other tests", x.Name, x.Scope, ws, got), det)
-					continue
+		kindOf := func(j int) string {
+			if j >= 0 && j < len(t.Items) {
+				return t.Items[j].Kind
+			}
+			if t.ByName {
+				return "scope-by-name:" + t.Scopes[0]
+			}
+			return t.Kind
+		}
+		itemOf := func(j int) map[string]any {
+			if j >= 0 && j < len(t.Items) {
+				return map[string]any{"item": t.Items[j]}
+			}
+			return nil
+		}
+		tagInst := func(upto int) {
+			if cliTag != "" {
+				return
+			}
+			for j, it := range t.Items {
+				if j > upto && upto >= 0 {
+					break
+				}
+				hf := "hold"
+				if it.Fail {
+					hf = "fail"
+				}
+				c.oc.Tag("inst:" + it.Kind + "/" + hf)
+			}
+		}
+		switch {
+		case got == "pass" && cj < 0:
+			tagInst(-1)
+			if x.Nth == 0 {
+				firstScopeOK[x.Test] = true
+			}
+		case got == "pass":
+			report(kindOf(cj), ws, "pass", fmt.Sprintf("test %q (%s): item %q fails by construction (%s) but the test is reported passed", x.Name, x.Scope, strings.Join(t.Items[cj].Code, " "), ws), itemOf(cj))
+		case rj >= 0 && (cj < 0 || rj < cj):
+			report(kindOf(rj), "pass", got, fmt.Sprintf("test %q (%s): item %q holds by construction but is reported as %s (%s)", x.Name, x.Scope, strings.Join(t.Items[rj].Code, " "), got, clip(e.Error, 160)), itemOf(rj))
+		case rj >= 0 && rj > cj:
+			report(kindOf(cj), ws, "pass", fmt.Sprintf("test %q (%s): item %q fails by construction (%s) but execution went on to a later item", x.Name, x.Scope, strings.Join(t.Items[cj].Code, " "), ws), itemOf(cj))
+		case cj < 0:
+			// failed somewhere outside the items (prelude) or without a position
+			report(kindOf(-1), "pass", got, fmt.Sprintf("test %q (%s): constructed verdict pass, reported %s (%s)", x.Name, x.Scope, got, clip(e.Error, 200)), nil)
+		default:
+			// the constructed item failed (rj == cj) or a failure without position while one was constructed
+			it := t.Items[cj]
+			classOK := got == ws || want.Class == "any"
+			if rj < 0 && want.Class != "runtime-error" && want.Class != "any" {
+				classOK = false
+			}
+			msgOK := true
+			if want.Msg != "" {
+				if want.Class == "custom-message" {
+					msgOK = e.Error == want.Msg
+				} else {
+					msgOK = strings.Contains(e.Error, want.Msg)
 				}
 			}
-			scopeNote := ""
-			if t != nil && len(t.Scopes) > 1 && x.Nth > 0 {
-				scopeNote = "@scope#" + strconv.Itoa(x.Nth+1)
+			switch {
+			case !classOK:
+				report(it.Kind, ws, got, fmt.Sprintf("test %q (%s): item %q is constructed to fail as %s, reported %s (%s)", x.Name, x.Scope, strings.Join(it.Code, " "), ws, got, clip(e.Error, 200)), itemOf(cj))
+			case !msgOK:
+				report(it.Kind, ws, got+":other-message", fmt.Sprintf("test %q: the failure is reported but the message %q does not carry the expected text %q", x.Name, clip(e.Error, 200), want.Msg), itemOf(cj))
+			default:
+				tagInst(cj)
+				if x.Nth == 0 {
+					firstScopeOK[x.Test] = true
+				}
+				if got == "fail(empty-message)" {
+					c.oc.Violate("verdict:"+it.Kind+"/fail->json-entry-without-error", fmt.Sprintf("test %q fails (exit status, plain output) but its -json entry carries no \"error\" field because the custom message is empty: only file/line tell it from a passed test", x.Name), det(itemOf(cj)))
+				}
 			}
-			c.oc.Violate("verdict:"+kind+scopeNote+"/"+ws+"->"+got, fmt.Sprintf("test %q (%s): constructed verdict %s, reported %s (%s)", x.Name, x.Scope, ws, got, clip(e.Error, 200)), det)
-			continue
 		}
-		c.oc.Violate("verdict:"+kind+"/"+ws+"->"+got+":other-message", fmt.Sprintf("test %q: the failure is reported but the message %q does not carry the expected text %q", x.Name, clip(e.Error, 200), want.Msg), det)
 	}
 }
 
@@ -1227,7 +1387,7 @@ func (c *checker) compare(mode string, a, b *arrRun, rerun func() *arrRun) {
 				if who == "" {
 					who = t.Kind
 				}
-				c.oc.Violate("coverage:"+who+"/"+field, fmt.Sprintf("test %q (%s) is reported differently with --coverage: %s", t.Name, t.Scenario, describeDiff(oa[n], ob[n])), det)
+				c.oc.Violate("coverage:"+who, fmt.Sprintf("test %q (%s) is reported differently with --coverage: %s", t.Name, t.Scenario, describeDiff(oa[n], ob[n])), det)
 			} else {
 				who := t.ProbeFor
 				if who == "" {
@@ -1289,7 +1449,11 @@ func (c *checker) run() {
 		if s.rr.crashed {
 			want := constructed(t, "")
 			kind := t.Kind
-			oc.Violate("verdict:"+kind+"/"+want.String()+"->crash", fmt.Sprintf("falco test dies (exit %d, no report) on a file containing only this test; top frame %s", s.rr.exit, crashFrame(s.rr.stderr)),
+			exp := "pass"
+			if len(t.Items) > 0 && t.Items[0].Fail {
+				exp = verdict{V: "fail", Class: t.Items[0].Class}.String()
+			}
+			oc.Violate("verdict:"+kind+"/"+exp+"->crash", fmt.Sprintf("falco test dies (exit %d, no report) on a file containing only this test; top frame %s", s.rr.exit, crashFrame(s.rr.stderr)),
 				c.detail(&s.rd, &s.rr, map[string]any{"constructed": want.String(), "scenario": t.Scenario}))
 			oc.Tag("crashing-tests-removed")
 			continue
@@ -1299,7 +1463,7 @@ func (c *checker) run() {
 		if s.ok {
 			alone[ti] = c.obsOf(s, ti)
 		}
-		c.checkVerdicts(s, "", nil)
+		c.checkVerdicts(s, "", nil, nil)
 		sc := c.exec([]int{ti}, true, "singleton", "")
 		if sc.rr.crashed {
 			oc.Violate("coverage:crash/"+t.Kind, "falco test --coverage dies on a file that runs without --coverage; top frame "+crashFrame(sc.rr.stderr), c.detail(&sc.rd, &sc.rr, nil))
@@ -1320,7 +1484,7 @@ func (c *checker) run() {
 	if !base.ok {
 		return
 	}
-	c.checkVerdicts(base, "", alone)
+	c.checkVerdicts(base, "", alone, nil)
 	var p, fl int
 	for _, e := range base.rr.entries {
 		switch coarse(classify(e)) {
@@ -1382,7 +1546,7 @@ func (c *checker) run() {
 	if hasTag {
 		ta := c.exec(keep, false, "with -t prod", "prod")
 		if !ta.rr.crashed {
-			c.checkVerdicts(ta, "prod", nil)
+			c.checkVerdicts(ta, "prod", nil, base)
 		}
 	}
 }
